@@ -465,6 +465,19 @@ def z3_z4_gpu(F, R, M, roles):
             stores = [n for n in sg.nodes if n.kind == 'assign' and n.d['place']['p'] and isinstance(n.d['place']['p'][-1], dict)
                       and n.d['place']['p'][-1].get('n') in dmaf and n.id in live and is_some(S.rvalue(n.id, n.d['rv']))]
             keep = bool(stores) and all(sg.always_before([s.id for s in stores], o.id) for o in oks)
+            # ... and stored only after it has been attached: overwriting the field drops the region stored before, which the device
+            # keeps using as the resource's backing until the new attach (or a detach) has been sent
+            if okpaths is not None:
+                early = None
+                for p in okpaths:
+                    seq = [('att' if e[0] == 'call' else 'st') for e in p.effects if (e[0] == 'call' and e[1] == a.id) or (e[0] == 'store' and e[1] in [s_.id for s_ in stores])]
+                    if 'st' in seq and 'att' in seq and seq.index('st') < seq.index('att'):
+                        early = True
+            else:
+                early = bool(stores) and not all(sg.always_before([a.id], s_.id) for s_ in stores)
+            R.check(not early, 'Z4', '%s:stored-after-attach' % b['name'], site(sg, a), 'the new region replaces the stored one only after it was attached',
+                    '%s stores the new backing region in the driver (dropping the region stored before) before the attach command has been sent: '
+                    'on a second call the previous region is freed while it is still the resource\'s backing' % b['name'])
             R.check(keep, 'Z4', '%s:backing-kept' % b['name'], site(sg, a), 'the attached region is stored in the driver on every Ok path',
                     'the DMA region attached as backing is dropped at the end of %s on some successful path (the device keeps using freed memory)' % b['name'])
             # page count derives from the attached length
